@@ -36,14 +36,15 @@ SpecStep(r, e) ==
                       /\ \/ r.mode = "dump"
                          \/ store' = Migrate(kind, e.v, store, {})
                          \/ store' = Migrate(kind, e.v, store, AllDev)
-             /\ ~ok => ver' = ver /\ store' = store
+             \* (a refused attempt changes nothing; the observed age class of the ballots moves with the block height)
+             /\ ~ok => ver' = ver /\ Drop(store', {"ballots"}) = Drop(store, {"ballots"})
     [] r.act = "wait" -> ver' = ver
     [] OTHER -> FALSE
 
 \* the decoded storage must explain what the API reports (otherwise the Spec state is ambiguous)
 RawApi(r) == r.obs.ver >= 0 /\ r.mode # "dump" => ToSet(r.obs.api) = NewAPI(r.kind, store')
 PendBinding(r) == r.mode # "dump" =>
-   (r.obs.pend = (NotaryOn(store') /\ Has(store', "ballots") /\ ValOf(store', "ballots") \in {"fresh", "mixed"}))
+   (r.obs.pend = (NotaryOn(store') /\ Has(store', "ballots") /\ ValOf(store', "ballots") \in FreshBallots))
 
 Judge(r) ==
   LET e == ev'
@@ -76,7 +77,8 @@ TraceNext ==
          /\ raw' = <<o.raw, o.nef, o.upd>>
          /\ pend' = o.pend
          /\ ev' = Event(r.act, ToSet(r.S), r.v, r.res)
-         /\ IF r.act = "reset" THEN TRUE ELSE Judge(r)
+         \* "prep" = an operation of the deployed (old) contract that sets a stored parameter: part of the pre-state
+         /\ IF r.act \in {"reset", "prep"} THEN TRUE ELSE Judge(r)
          /\ IF l' = Len(Trace) THEN PrintT("DONE|" \o ToString(l')) ELSE TRUE
 
 TraceSpec == TraceInit /\ [][TraceNext]_tvars
